@@ -8,6 +8,21 @@ VERIF = os.path.dirname(os.path.dirname(os.path.abspath(__file__)))
 ALL = [f"C{i:02d}" for i in range(1, 21)]
 
 CHECKS = {
+    "C10": dict(
+        category="model_checking",
+        technique="explicit-state BFS over sync-event histories on a real directory and server, heap-canonical state identity, differential oracle against a freshly started server",
+        text=("Explicit-state exploration of the long-lived index under document-sync events: every history of open / "
+              "change / save / close / create / delete / query events up to the depth bound on four workspaces (types, "
+              "procedures and generics, inheritance and submodules, preprocessor and INCLUDE) is replayed through the real "
+              "notification handlers on a fresh real server and directory; states are merged on the heap canon of the "
+              "server plus disk contents, buffers and dirty flags; at every quiescent state the full query battery of the "
+              "long-lived server must equal that of a freshly started server on the same files (no hand-written "
+              "expectations)."),
+        note=("Trusted: vf/canon.py (state identity), vf/battery.py (normalisation), the 30-line disk/buffer model that "
+              "decides enabledness and quiescence. Both servers use the real worker pool. Bounds: depth 5 (quick) / 6 "
+              "(thorough); file changes the server is never told about are outside the model."),
+        design="DESIGN.md §4 C10",
+    ),
     "C20": dict(
         category="exploration",
         technique="exhaustive enumeration of a cycle catalogue (shape x length x placement) with every positional request at every identifier, under a watchdog",
